@@ -9,9 +9,9 @@ mkdir -p bin evidence replays
 cp -f /repo/go.sum harness/go.sum 2>/dev/null || true
 rc=0
 (cd /repo && go build -tags verif ./... ) || rc=1
-for d in harness/cmd/c*/; do
-  n=$(basename "$d")
-  [ "$n" = c00 ] && continue
+# only the checks registered in MANIFEST.json are built
+for n in $(python3 -c "import json;print(' '.join(c['property_id'].lower() for c in json.load(open('MANIFEST.json'))['checks']))"); do
+  [ -d "harness/cmd/$n" ] || continue
   race=""
   case "$n" in c01|c02|c04|c05|c08|c09|c10|c11|c15) race="-race";; esac
   (cd harness && go build -tags verif $race -o ../bin/$n ./cmd/$n) || { echo "setup: build of $n failed"; rc=1; }
